@@ -219,6 +219,11 @@ def pre_env(sm, fn, loop, args):
                     continue
                 if len(outs) == 1 and outs[0][1] is None:
                     st = outs[0][0]
+            elif isinstance(s, (ast.If, ast.For, ast.While, ast.With, ast.Try)):
+                # names (re)bound under a condition / in a loop before the loop of interest are unknown there
+                for x in ast.walk(s):
+                    if isinstance(x, ast.Name) and isinstance(x.ctx, ast.Store):
+                        st.env[x.id] = Sym(("name", x.id))
         holder = body[idx]
         if holder is not loop and isinstance(holder, ast.For) and isinstance(holder.target, ast.Name):
             st.env[holder.target.id] = Sym(("name", holder.target.id))
